@@ -32,6 +32,7 @@ class Chacha(salsa20.Salsa20):
         self.p[14:16] = v.split(32)
         maxlen = 1<<64
         i = 0
+        if salsa20._VERIF: i = getattr(self,'_verif_block0',0)
         while i<maxlen:
             self.p[12:14] = (i&0xffffffff,i>>32)
             yield self.core(self.p,dround=self.dround)
